@@ -485,11 +485,15 @@ class Path:
 class Sym:
     """acyclic path enumeration with forward substitution for one body"""
 
-    def __init__(self, body, max_paths=20000, stop_at=()):
+    def __init__(self, body, max_paths=20000, stop_at=(), merge_loop_exits=False):
         self.body = body
         self.max_paths = max_paths
         self.paths = []
         self.stop_at = set(stop_at)
+        # merge_loop_exits: the code after a loop is explored once per exit target (from the first path that
+        # leaves the loop) instead of once per path through the loop: sum instead of product of path counts
+        self.merge_loop_exits = merge_loop_exits
+        self._exit_seen = set()
 
     # -- reading ---------------------------------------------------------------------------------
     def local_term(self, p, l):
@@ -671,24 +675,43 @@ class Sym:
 
     # -- driving ---------------------------------------------------------------------------------
     def loop_info(self):
-        """for every real loop: header blocks and the bare locals assigned inside it"""
+        """for every natural loop (back edge u -> h with h dominating u): header h and the bare locals
+        assigned inside the loop body; pure await poll-loops are skipped"""
         if getattr(self, '_loops', None) is None:
             body = self.body
+            dom = dominators(body)
             pm = body.pred_map()
+            sm = body.succ_map()
             heads = {}
-            for comp in real_loops(body):
-                assigned = set()
-                for b in comp:
-                    for st in body.blocks[b]['stmts']:
-                        if st['k'] == 'assign' and not st['place']['p']:
-                            assigned.add(st['place']['l'])
-                    t = body.blocks[b]['term']
-                    if t['k'] == 'call' and not t['dest']['p']:
-                        assigned.add(t['dest']['l'])
-                for b in comp:
-                    if any(q not in comp for q in pm[b]):
-                        heads.setdefault(b, set()).update(assigned)
+            bodies = []
+            for u in dom:
+                for h in sm[u]:
+                    if h in dom.get(u, ()):  # h dominates u: back edge
+                        # natural loop body: h plus everything that reaches u without passing h
+                        comp = {h, u}
+                        st = [u]
+                        while st:
+                            x = st.pop()
+                            if x == h:
+                                continue
+                            for q in pm[x]:
+                                if q not in comp and q in dom:
+                                    comp.add(q)
+                                    st.append(q)
+                        if all(is_await_block(body, x) for x in comp):
+                            continue
+                        assigned = set()
+                        for x in comp:
+                            for stt in body.blocks[x]['stmts']:
+                                if stt['k'] == 'assign' and not stt['place']['p']:
+                                    assigned.add(stt['place']['l'])
+                            t = body.blocks[x]['term']
+                            if t['k'] == 'call' and not t['dest']['p']:
+                                assigned.add(t['dest']['l'])
+                        heads.setdefault(h, set()).update(assigned)
+                        bodies.append(comp)
             self._loops = heads
+            self._loop_bodies = bodies
         return self._loops
 
     def run(self, start=0, env=None):
@@ -707,6 +730,14 @@ class Sym:
                 p.stop_block = b
                 self.paths.append(p)
                 continue
+            if self.merge_loop_exits and p.blocks:
+                prev = p.blocks[-1]
+                if any(prev in comp and b not in comp for comp in self._loop_bodies):
+                    if b in self._exit_seen:
+                        p.end = 'merged'
+                        self.paths.append(p)
+                        continue
+                    self._exit_seen.add(b)
             if b in p.blocks:
                 # back edge
                 if all(is_await_block(body, x) for x in p.blocks[p.blocks.index(b):]):
@@ -933,6 +964,8 @@ def fmt(t, depth=0):
         return str(t)
     if depth > 6:
         return '…'
+    if not t:
+        return '()'
     k = t[0]
     if k == 'int':
         return str(t[1]) if t[2] is None else '%s(=%d)' % (t[2].split('::')[-1], t[1])
